@@ -117,6 +117,9 @@ func loadProg(dir string) (*Prog, error) {
 		if strings.HasPrefix(fn.Synthetic, "instantiation wrapper") {
 			continue // forwarding thunk of a generic function: calls are attributed to the generic itself
 		}
+		if isInstance(fn) {
+			continue // a generic function is analysed once, in its generic form; calls of its instances count as calls of it
+		}
 		if p.inTree(fn) {
 			p.allFns[fn] = true
 			p.Funcs = append(p.Funcs, fn)
@@ -268,6 +271,9 @@ func staticCallee(ci ssa.CallInstruction) *ssa.Function {
 	}
 	switch v := c.Value.(type) {
 	case *ssa.Function:
+		if strings.HasPrefix(v.Synthetic, "instance of") && v.Origin() != nil {
+			return v.Origin()
+		}
 		return v
 	case *ssa.MakeClosure:
 		if f, ok := v.Fn.(*ssa.Function); ok {
@@ -275,6 +281,16 @@ func staticCallee(ci ssa.CallInstruction) *ssa.Function {
 		}
 	}
 	return nil
+}
+
+// isInstance: fn is (or lies inside) an instantiation of a generic function.
+func isInstance(fn *ssa.Function) bool {
+	for f := fn; f != nil; f = f.Parent() {
+		if strings.HasPrefix(f.Synthetic, "instance of") {
+			return true
+		}
+	}
+	return false
 }
 
 // unbound maps a "$bound"/"$thunk" synthetic wrapper to the method it wraps.
